@@ -256,7 +256,8 @@ class RuntimeName(Name, Object, Callable):
         if isinstance(self.value, type):
             try:
                 self._instance = RuntimeName('__none__', self.value())
-            except TypeError:
+            except Exception:
+                # e.g. super() outside a method raises RuntimeError
                 pass
 
         return self._instance
